@@ -5,26 +5,26 @@ The sub-agents see the property text only; nothing from /verif is shown to them.
 import json, subprocess, sys, os
 
 AVOID = {
-    'C01': "(a) making flush() release the next writer, (b) discarding the turn receiver in flush before the first write, (c) a dropped-before-turn writer forwarding its predecessor's receiver, (d) skipping the turn wait when the thread is panicking, (e) a fast path that skips the turn wait when only one writer is queued",
+    'C01': "(a) making flush() release the next writer, (b) discarding the turn receiver in flush before the first write, (c) a dropped-before-turn writer forwarding its predecessor's receiver, (d) skipping the turn wait when the thread is panicking, (e) a fast path that skips the turn wait when only one writer is queued, (f) a stale connection-idle flag that lets a new writer skip the chain",
     'C02': "(a) trimming header values of spaces only, (b) restricting extension method tokens to alphanumerics, (c) folding the Connection header value to lower case when parsed, (d) rejecting header values that contain a control character such as HTAB, (e) dropping Content-Length from the delivered headers when Transfer-Encoding is present",
-    'C03': "(a) a case-sensitive Transfer-Encoding name test, (b) buffering a small body with a single read, (c) normalising Content-Length: 0 to 'no length', (d) a single header loop in which a Content-Length after Transfer-Encoding wins, (e) a top-up read bounded by the caller's buffer instead of the body length",
+    'C03': "(a) a case-sensitive Transfer-Encoding name test, (b) buffering a small body with a single read, (c) normalising Content-Length: 0 to 'no length', (d) a single header loop in which a Content-Length after Transfer-Encoding wins, (e) a top-up read bounded by the caller's buffer instead of the body length, (f) detecting upgrade token-wise on untrimmed Connection tokens",
     'C04': "(a) never terminating a declared-empty chunked body, (b) taking a short read for the end of the input, (c) always running the body-sending branch with an empty reader for bodiless responses, (d) with_data(reader, None) inheriting the length of the template, (e) matching the reserved response header names case-sensitively",
     'C05': "(a) adding 304 to the never-chunked statuses, (b) a TE list search that stops at an unsupported coding, (c) max_by(q) instead of a stable sort (ties reversed), (d) advertising Content-Length: 0 for an unsent body of unknown length, (e) skipping a TE-preferred identity when the length is unknown",
-    'C06': "(a) failing writes while a thread is panicking, (b) releasing the next writer at flush time, (c) keeping the writer inside the request until respond succeeded, (d) releasing the body reader before the automatic 500 is written, (e) the automatic 500 of a dropped HEAD request framed with a chunk terminator",
+    'C06': "(a) failing writes while a thread is panicking, (b) releasing the next writer at flush time, (c) keeping the writer inside the request until respond succeeded, (d) releasing the body reader before the automatic 500 is written, (e) the automatic 500 of a dropped HEAD request framed with a chunk terminator, (f) skipping the flush while another writer of the connection exists",
     'C07': "(a) notifying only when the queue was empty, (b) try_pop leaving an Unblock token at the head, (c) releasing the queue lock between the check and wait_timeout, (d) taking from the back of the queue on the give-up path of pop_timeout, (e) skipping notify_one when a parked-receiver counter is 0",
-    'C08': "(a) leaking the waiting counter when a worker retires, (b) notifying only when the task queue was empty, (c) a timed-out worker retiring without re-checking the queue, (d) dropping the waiting registration after the pool lock is released, (e) dropping the finished task (with the connection inside) while holding the pool lock",
-    'C09': "(a) over-reading while discarding an unread Content-Length body, (b) swapping the order of the drain and fuse wrappers of the chunked reader, (c) not discarding the body of a 'last' request, (d) capping the discard of an unread body, (e) un-fusing the body reader on empty-buffer reads while removing the finished guard of the chunk drain",
+    'C08': "(a) leaking the waiting counter when a worker retires, (b) notifying only when the task queue was empty, (c) a timed-out worker retiring without re-checking the queue, (d) dropping the waiting registration after the pool lock is released, (e) dropping the finished task (with the connection inside) while holding the pool lock, (f) counting not-yet-started initial workers as available in spawn()",
+    'C09': "(a) over-reading while discarding an unread Content-Length body, (b) swapping the order of the drain and fuse wrappers of the chunked reader, (c) not discarding the body of a 'last' request, (d) capping the discard of an unread body, (e) un-fusing the body reader on empty-buffer reads while removing the finished guard of the chunk drain, (f) putting the keep-alive test before the upgrade test in the persistence decision",
     'C10': "(a) ignoring Expect for HTTP/1.0 requests, (b) dropping the headers of a request rejected with 505, (c) deciding the 417 only after the request body has been framed, (d) trimming a header line before the end-of-head test (whitespace-only line), (e) accepting head lines as UTF-8 instead of ASCII",
-    'C11': "(a) reading a small body with a single read, (b) sending an explicit Content-Length: 0 down the large-body path, (c) an off-by-one at the 1024-byte threshold, (d) streaming small bodies when many responses are pending, (e) fusing a large body only when the request says keep-alive",
-    'C12': "(a) re-ordering the keep-alive/close/upgrade tests, (b) shutting the socket down when the client's FIN is read, (c) re-ordering the fields of the connection object, (d) caching the Connection header value on the connection object, (e) comparing untrimmed Connection options as whole tokens",
+    'C11': "(a) reading a small body with a single read, (b) sending an explicit Content-Length: 0 down the large-body path, (c) an off-by-one at the 1024-byte threshold, (d) streaming small bodies when many responses are pending, (e) fusing a large body only when the request says keep-alive, (f) notifying in MessagesQueue::push only when the queue was empty",
+    'C12': "(a) re-ordering the keep-alive/close/upgrade tests, (b) shutting the socket down when the client's FIN is read, (c) re-ordering the fields of the connection object, (d) caching the Connection header value on the connection object, (e) comparing untrimmed Connection options as whole tokens, (f) dropping the shutdown(Write) of the writing half",
     'C13': "(a) reading a small body with at most two reads, (b) a discard loop that uses a stale length field, (c) a bulk copy of the buffered part of a head line that forgets a trailing CR, (d) an extra BufReader under the Content-Length body reader, (e) a drain budget charged per read call instead of per byte",
     'C14': "(a) expect() on an overflowing Content-Length, (b) an unchecked slice of a TE parameter, (c) sizing the discard buffer by the declared remainder of a chunk, (d) skipping the buffering of an unknown-length body that will not be sent (assert fails), (e) recursion instead of a loop after a 505",
-    'C15': "(a) no longer ignoring closing errors from the final flush, (b) accepting a short small body via read_to_end, (c) a drain loop that spins on Ok(0), (d) treating EOF at a line boundary like the blank line, (e) reporting a premature EOF of a body as ErrorKind::Interrupted",
+    'C15': "(a) no longer ignoring closing errors from the final flush, (b) accepting a short small body via read_to_end, (c) a drain loop that spins on Ok(0), (d) treating EOF at a line boundary like the blank line, (e) reporting a premature EOF of a body as ErrorKind::Interrupted, (f) flushing in Drop for SequentialWriter while holding the writer lock before the turn",
     'C16': "(a) accepting a leading HTAB again, (b) a hand-rolled wrapping digit fold for Content-Length, (c) a header lookup helper that drops empty values, (d) stripping trailing whitespace in read_next_line (whitespace-only line ends the head), (e) parsing Content-Length with usize::from_str alone (accepts +5)",
-    'C17': "(a) moving Instant::now() out of the loop of pop_timeout, (b) notifying in unblock() only when the queue was empty, (c) a timed receiver that gives up leaving the unblock token behind, (d) recomputing the time budget of pop_timeout in every iteration, (e) discarding every unblock token in front of the first request in try_pop",
+    'C17': "(a) moving Instant::now() out of the loop of pop_timeout, (b) notifying in unblock() only when the queue was empty, (c) a timed receiver that gives up leaving the unblock token behind, (d) recomputing the time budget of pop_timeout in every iteration, (e) discarding every unblock token in front of the first request in try_pop, (f) a parked-receiver counter that is decremented twice on a notified give-up",
     'C18': "(a) no 100 Continue for Content-Length: 0, (b) setting the expectation flag from is_ok(), (c) discarding a short body through as_reader() before answering, (d) not flushing the 100 Continue when the body length is 0 or unknown, (e) a case-sensitive comparison for the 100-continue flag",
     'C19': "(a) a case-sensitive Content-Type replacement, (b) a single early-exit scan for Date/Server, (c) a cached Content-Type index that with_data forgets, (d) a Content-Length that does not parse falling through to the header list, (e) a cached Date header whose age is reset on every hit",
-    'C20': "(a) changing the marker value stored by TaskPool::drop, (b) notify_all instead of notify_one on dispatch, (c) subtracting a reclaimed worker twice, (d) draining the request queue in Server::drop, (e) storing the close flag after the wake-up self-connect",
+    'C20': "(a) changing the marker value stored by TaskPool::drop, (b) notify_all instead of notify_one on dispatch, (c) subtracting a reclaimed worker twice, (d) draining the request queue in Server::drop, (e) storing the close flag after the wake-up self-connect, (f) the accept thread skipping the wake-up connection and becoming the last owner of the queue",
 }
 
 def main():
